@@ -479,7 +479,7 @@ def finish(ctx, manifest_entry, res, trusted_base, assumptions, level, checker_c
 # otherwise cost one watchdog period per input: once DEATH_BUDGET_S seconds have gone into dying processes the remaining
 # lines are answered "DIED skipped ..." (the deaths seen so far are violations with replays already).  Crashes on the unchanged
 # tree (recorded findings) die within milliseconds and never come near the budget.
-DEATH_TIME = [0.0]
+DEATH_TIME = {}            # per binary (an oracle must not be silenced by a dying harness)
 DEATH_BUDGET_S = float(os.environ.get("VERIF_DEATH_BUDGET_S", "900"))
 
 
@@ -494,7 +494,7 @@ def run_grouped(binary, groups, timeout=1800, max_restarts=40, env=None, cpu=Non
         start = 0
         restarts = 0
         while True:
-            if DEATH_TIME[0] > DEATH_BUDGET_S:
+            if DEATH_TIME.get(binary, 0.0) > DEATH_BUDGET_S:
                 hdr_ans = hdr_ans or "DIED skipped (time budget for dying processes exhausted)"
                 answers += ["DIED skipped (time budget for dying processes exhausted)"] * (len(ops) - start)
                 break
@@ -506,7 +506,7 @@ def run_grouped(binary, groups, timeout=1800, max_restarts=40, env=None, cpu=Non
             if lines and lines[-1] == "":
                 lines.pop()
             if not lines:
-                DEATH_TIME[0] += t_run
+                DEATH_TIME[binary] = DEATH_TIME.get(binary, 0.0) + t_run
                 hdr_ans = hdr_ans or ("DIED rc=%d %s" % (rc, err[-200:].replace("\n", " ")))
                 answers += ["DIED"] * (len(ops) - start)
                 break
@@ -518,7 +518,7 @@ def run_grouped(binary, groups, timeout=1800, max_restarts=40, env=None, cpu=Non
                 answers += got[:need]
                 break
             # died early
-            DEATH_TIME[0] += t_run
+            DEATH_TIME[binary] = DEATH_TIME.get(binary, 0.0) + t_run
             if got and got[-1].startswith("CRASH"):
                 answers += got
             else:
